@@ -789,3 +789,513 @@ func c19R11(c *Ctx, r *Report) {
 	r.Floor(rule, n, 50, "parser functions")
 	r.Note("C19.R11 scanned %d parser functions, %d location writes", n, writes)
 }
+
+// ---- C18.R12: the layout never falls back to the packed size of a composite type -------------------------------
+
+func init() {
+	lateInits = append(lateInits, func() {
+		props["C18"].Quick = append(props["C18"].Quick, c18R12)
+		props["C18"].Explanation += " (R12) DataLayout.SizeOf has a clause of its own for every semantic type whose Size() adds up the Size() of component types (struct, union, optional, result, fixed array): the `default: tt.Size()` clause, which knows nothing of padding, is reached by leaf types only."
+	})
+}
+
+// c18R12Reviewed: composite types that never reach the type switch of SizeOf.
+var c18R12Reviewed = map[string]string{
+	"NamedType": "types.UnwrapType, applied before the switch, replaces a named type by its underlying type",
+}
+
+func c18R12(c *Ctx, r *Report) {
+	const rule = "C18.R12"
+	const pkgTypes = "internal/types"
+	r.Describe(rule, "mir.DataLayout.SizeOf: every type of package types whose Size() method calls Size() on a value other than its own receiver has a case clause in SizeOf's type switch (types removed by UnwrapType excepted)")
+	sizeOf := c.LookupFn("internal/mir", "(*DataLayout).SizeOf")
+	if !r.Anchor(rule, sizeOf != nil && sizeOf.Decl.Body != nil, "mir.(*DataLayout).SizeOf") {
+		return
+	}
+	handled := map[string]bool{}
+	info := sizeOf.Info()
+	ast.Inspect(sizeOf.Decl.Body, func(x ast.Node) bool {
+		ts, ok := x.(*ast.TypeSwitchStmt)
+		if !ok {
+			return true
+		}
+		for _, cc := range caseClauses(ts.Body) {
+			for _, t := range caseTypes(info, cc) {
+				if nt := namedOf(t); nt != nil {
+					handled[nt.Obj().Name()] = true
+				}
+			}
+		}
+		return true
+	})
+	n := 0
+	for _, fn := range c.AllFns(pkgTypes) {
+		sig := fn.Obj.Type().(*types.Signature)
+		if fn.Obj.Name() != "Size" || sig.Recv() == nil || fn.Decl.Body == nil {
+			continue
+		}
+		nt := namedOf(sig.Recv().Type())
+		if nt == nil {
+			continue
+		}
+		composite := false
+		finfo := fn.Info()
+		for _, cl := range callsIn(fn.Decl.Body, true) {
+			sel, ok := cl.Fun.(*ast.SelectorExpr)
+			if !ok || sel.Sel.Name != "Size" || len(cl.Args) != 0 {
+				continue
+			}
+			if objOf(finfo, sel.X) == sig.Recv() {
+				continue
+			}
+			composite = true
+		}
+		if !composite {
+			continue
+		}
+		n++
+		name := nt.Obj().Name()
+		if reason, ok := c18R12Reviewed[name]; ok {
+			r.OK(rule, "mir.(*DataLayout).SizeOf", "composite type "+name, c.pos(fn.Decl.Pos()), "reviewed: "+reason)
+			continue
+		}
+		if name == "EnumType" {
+			// an enum's variants carry no payload: every EnumVariant literal of the compiler leaves Type nil, so
+			// Size() is the 4-byte discriminant
+			payload := ""
+			lits := 0
+			for _, p := range c.Pkgs {
+				for _, f := range c.AllFns(relOf(p.PkgPath)) {
+					if f.Decl.Body == nil {
+						continue
+					}
+					ast.Inspect(f.Decl.Body, func(x ast.Node) bool {
+						cl, ok := x.(*ast.CompositeLit)
+						if !ok || !isNamed(f.Info().TypeOf(cl), Mod+"/"+pkgTypes, "EnumVariant") {
+							return true
+						}
+						lits++
+						for i, el := range cl.Elts {
+							kv, isKV := el.(*ast.KeyValueExpr)
+							if isKV {
+								if id, ok := kv.Key.(*ast.Ident); ok && id.Name == "Type" {
+									if tv, ok := f.Info().Types[kv.Value]; !ok || !tv.IsNil() {
+										payload = f.Name()
+									}
+								}
+							} else if i == 2 {
+								payload = f.Name()
+							}
+						}
+						return true
+					})
+				}
+			}
+			r.Check(payload == "" && lits > 0, rule, "mir.(*DataLayout).SizeOf", "composite type EnumType: no variant is given a payload type", c.pos(fn.Decl.Pos()),
+				"enum variants with a payload are built in "+payload+" while the layout still takes an enum's size from EnumType.Size(), which adds packed sizes")
+			continue
+		}
+		r.Check(handled[name], rule, "mir.(*DataLayout).SizeOf", "composite type "+name+" has its own clause", c.pos(sizeOf.Decl.Pos()),
+			"the storage size of "+name+" is taken from its Size() method, which adds the packed sizes of its components, while the components themselves are laid out and copied with padding: `type Big struct { .A: u8, .D: i64, .E: i64 }; type U union { i32, Big }` got 21 bytes (tag + 17) for a 24-byte payload, and `u = b; if u is Big { io::Println(u.E); }` printed 12884901891 for 3")
+	}
+	r.Floor(rule, n, 4, "composite semantic types")
+}
+
+// ---- C13.R22: a nil pointer handed to an interface parameter is not caught by the callee's nil test -------------
+
+func init() {
+	lateInits = append(lateInits, func() {
+		props["C13"].Quick = append(props["C13"].Quick, c13R22)
+		props["C13"].Explanation += " (R22) where a walker guards its interface parameter with `if node == nil { return }` and then type-switches on it, a call site that passes a struct field of concrete pointer type (which, when nil, becomes a non-nil interface holding a nil pointer) either tests the field against nil first or the matching case clause does before it touches the node."
+	})
+}
+
+// c13R22Reviewed: call sites whose argument cannot be nil, with the reason.
+var c13R22Reviewed = map[string]string{
+	"hir/analysis.extractModifiedFromNode | call extractModifiedFromNode(n.Body) in case *hir.IfStmt":                 "an if statement always has a body: parser.parseIfStmt builds it with parseBlock, the lowering's synthetic ifs with a block literal",
+	"hir/analysis.extractModificationKindFromNode | call extractModificationKindFromNode(n.Body) in case *hir.IfStmt": "an if statement always has a body: parser.parseIfStmt builds it with parseBlock, the lowering's synthetic ifs with a block literal",
+}
+
+func c13R22(c *Ctx, r *Report) {
+	const rule = "C13.R22"
+	r.Describe(rule, "compiler packages: for every function F(p I, …) whose body returns early on `p == nil` and type-switches on p, and every call F(x.f) where x.f is a struct field of concrete pointer type *T: the call is dominated by a test of x.f against nil, or the `case *T` clause of F tests its variable against nil before using it")
+	type walker struct {
+		fn    *Fn
+		idx   int
+		param *types.Var
+	}
+	walkers := map[*types.Func]walker{}
+	for _, p := range c.Pkgs {
+		rel := relOf(p.PkgPath)
+		if !strings.HasPrefix(rel, "internal/") {
+			continue
+		}
+		for _, fn := range c.AllFns(rel) {
+			if fn.Decl.Body == nil {
+				continue
+			}
+			sig := fn.Obj.Type().(*types.Signature)
+			info := fn.Info()
+			for i := 0; i < sig.Params().Len(); i++ {
+				pv := sig.Params().At(i)
+				if _, isIface := pv.Type().Underlying().(*types.Interface); !isIface {
+					continue
+				}
+				// early `if p == nil … { return }` among the first statements
+				guard := false
+				for k, st := range fn.Decl.Body.List {
+					if k > 2 {
+						break
+					}
+					ifs, ok := st.(*ast.IfStmt)
+					if !ok {
+						continue
+					}
+					for _, d := range disjuncts(ifs.Cond) {
+						if b, ok := isBinOp(d, token.EQL); ok && objOf(info, b.X) == pv && exprStr(b.Y) == "nil" {
+							guard = true
+						}
+					}
+				}
+				if guard && len(typeSwitchesOn(info, fn.Decl.Body, pv)) > 0 {
+					walkers[fn.Obj] = walker{fn, i, pv}
+				}
+			}
+		}
+	}
+	if !r.Anchor(rule, len(walkers) >= 5, "walkers that guard an interface parameter against nil") {
+		return
+	}
+	// does the case clause for concrete type t in walker w test its variable against nil first?
+	clauseGuards := func(w walker, t types.Type) (found, guarded bool) {
+		info := w.fn.Info()
+		for _, ts := range typeSwitchesOn(info, w.fn.Decl.Body, w.param) {
+			for _, cc := range caseClauses(ts.Body) {
+				match := false
+				for _, ct := range caseTypes(info, cc) {
+					if types.Identical(ct, t) {
+						match = true
+					}
+				}
+				if !match {
+					continue
+				}
+				found = true
+				if len(cc.Body) > 0 {
+					if ifs, ok := cc.Body[0].(*ast.IfStmt); ok {
+						for _, d := range disjuncts(ifs.Cond) {
+							if b, ok := isBinOp(d, token.EQL); ok && exprStr(b.Y) == "nil" {
+								if _, isID := ast.Unparen(b.X).(*ast.Ident); isID {
+									guarded = true
+								}
+							}
+						}
+					}
+				}
+				// a clause that never dereferences its variable is safe too
+				if !guarded {
+					uses := false
+					var sym types.Object
+					if as, ok := ts.Assign.(*ast.AssignStmt); ok && len(as.Lhs) == 1 {
+						sym = info.Implicits[cc]
+					}
+					for _, st := range cc.Body {
+						ast.Inspect(st, func(y ast.Node) bool {
+							if id, ok := y.(*ast.Ident); ok && sym != nil && info.Uses[id] == sym {
+								uses = true
+							}
+							return true
+						})
+					}
+					if sym != nil && !uses {
+						guarded = true
+					}
+				}
+			}
+		}
+		return
+	}
+	n := 0
+	for _, p := range c.Pkgs {
+		rel := relOf(p.PkgPath)
+		if !strings.HasPrefix(rel, "internal/") {
+			continue
+		}
+		for _, fn := range c.AllFns(rel) {
+			if fn.Decl.Body == nil {
+				continue
+			}
+			info := fn.Info()
+			walkWithStack(fn.Decl.Body, func(x ast.Node, stack []ast.Node) bool {
+				cl, ok := x.(*ast.CallExpr)
+				if !ok {
+					return true
+				}
+				w, isW := walkers[callee(info, cl)]
+				if !isW || len(cl.Args) <= w.idx {
+					return true
+				}
+				arg := ast.Unparen(cl.Args[w.idx])
+				sel, isSel := arg.(*ast.SelectorExpr)
+				if !isSel || fieldOf(info, sel) == nil {
+					return true
+				}
+				at := info.TypeOf(arg)
+				ptr, isPtr := at.(*types.Pointer)
+				if !isPtr {
+					return true
+				}
+				if _, isStruct := ptr.Elem().Underlying().(*types.Struct); !isStruct {
+					return true
+				}
+				n++
+				key := "call " + w.fn.Obj.Name() + "(" + exprStr(arg) + ")"
+				for i := len(stack) - 1; i >= 0; i-- { // the clause of the caller's type switch the call stands in
+					if cc, ok := stack[i].(*ast.CaseClause); ok && len(cc.List) > 0 {
+						key += " in case " + exprStr(cc.List[0])
+						break
+					}
+				}
+				// dominated by a nil test of the same expression?
+				tested := false
+				want := exprStr(arg)
+				for i, a := range stack {
+					switch s := a.(type) {
+					case *ast.IfStmt:
+						var next ast.Node = cl
+						if i+1 < len(stack) {
+							next = stack[i+1]
+						}
+						for _, cj := range conjuncts(s.Cond) {
+							if b, ok := isBinOp(cj, token.NEQ); ok && exprStr(b.X) == want && exprStr(b.Y) == "nil" && containsNode(s.Body, next) {
+								tested = true
+							}
+						}
+						for _, dj := range disjuncts(s.Cond) {
+							if b, ok := isBinOp(dj, token.EQL); ok && exprStr(b.X) == want && exprStr(b.Y) == "nil" && s.Else != nil && containsNode(s.Else, next) {
+								tested = true
+							}
+						}
+					case *ast.BlockStmt:
+						// an earlier `if arg == nil { return/continue/break }` in the same block
+						for _, st := range s.List {
+							if st.End() > cl.Pos() {
+								break
+							}
+							if ifs, ok := st.(*ast.IfStmt); ok && thenTerminates(ifs) {
+								for _, dj := range disjuncts(ifs.Cond) {
+									if b, ok := isBinOp(dj, token.EQL); ok && exprStr(b.X) == want && exprStr(b.Y) == "nil" {
+										tested = true
+									}
+								}
+							}
+						}
+					case *ast.CaseClause:
+						for _, st := range s.Body {
+							if st.End() > cl.Pos() {
+								break
+							}
+							if ifs, ok := st.(*ast.IfStmt); ok && thenTerminates(ifs) {
+								for _, dj := range disjuncts(ifs.Cond) {
+									if b, ok := isBinOp(dj, token.EQL); ok && exprStr(b.X) == want && exprStr(b.Y) == "nil" {
+										tested = true
+									}
+								}
+							}
+						}
+					}
+				}
+				found, guarded := clauseGuards(w, at)
+				if reason, ok := c13R22Reviewed[fn.Name()+" | "+key]; ok {
+					r.OK(rule, fn.Name(), key, c.pos(cl.Pos()), "reviewed: "+reason)
+					return true
+				}
+				r.Check(tested || guarded || !found, rule, fn.Name(), key, c.pos(cl.Pos()),
+					"a field of type "+at.String()+" is handed to a walker that protects itself with `"+w.param.Name()+" == nil`: when the field is nil the interface value is not, the test passes and the `case "+at.String()+"` clause dereferences a nil pointer — `res(r) catch 0` (a catch clause with a fallback and no handler block) stopped the compiler with a Go panic in the borrow checker's last-use pass")
+				return true
+			})
+		}
+	}
+	r.Floor(rule, n, 5, "concrete-pointer fields handed to nil-guarded walkers")
+}
+
+// ---- C11.R15: the widening helper looks through a reference ------------------------------------------------------
+
+func init() {
+	lateInits = append(lateInits, func() {
+		props["C11"].Quick = append(props["C11"].Quick, c11R15)
+		props["C01"].Quick = append(props["C01"].Quick, c11R15)
+		props["C11"].Explanation += " (R15) widenNumericValue, which its call sites hand the un-dereferenced type of the source expression, loads through a reference-typed source before it asks whether source and target are primitives: a reference is never stored or widened as if it were the value."
+	})
+}
+
+func c11R15(c *Ctx, r *Report) {
+	const rule = "C11.R15"
+	r.Describe(rule, "mir/gen.widenNumericValue: before the first type assertion of the source type to *types.PrimitiveType there is a branch on the source type being a *types.ReferenceType in which the value is loaded (derefValueIfNeeded / emitLoad) and the source type replaced")
+	fn := c.LookupFn(pkgMIRGen, "(*functionBuilder).widenNumericValue")
+	if !r.Anchor(rule, fn != nil && fn.Decl.Body != nil, "mir/gen.widenNumericValue") {
+		return
+	}
+	info := fn.Info()
+	sig := fn.Obj.Type().(*types.Signature)
+	if !r.Anchor(rule, sig.Params().Len() >= 3, "widenNumericValue(val, fromType, toType, …)") {
+		return
+	}
+	val, from := sig.Params().At(0), sig.Params().At(1)
+	asserts := func(x ast.Node, typeName string) token.Pos { // first assertion of `from` (possibly unwrapped) to *types.<typeName>
+		var pos token.Pos
+		ast.Inspect(x, func(y ast.Node) bool {
+			ta, ok := y.(*ast.TypeAssertExpr)
+			if !ok || ta.Type == nil || pos != token.NoPos {
+				return true
+			}
+			if nt := namedOf(info.TypeOf(ta.Type)); nt == nil || nt.Obj().Name() != typeName {
+				return true
+			}
+			if mentionsVar(info, ta.X, from) {
+				pos = ta.Pos()
+			}
+			return true
+		})
+		return pos
+	}
+	primPos := asserts(fn.Decl.Body, "PrimitiveType")
+	loaded := false
+	var refPos token.Pos
+	ast.Inspect(fn.Decl.Body, func(x ast.Node) bool {
+		ifs, ok := x.(*ast.IfStmt)
+		if !ok {
+			return true
+		}
+		head := token.NoPos
+		if ifs.Init != nil {
+			head = asserts(ifs.Init, "ReferenceType")
+		}
+		if head == token.NoPos {
+			head = asserts(ifs.Cond, "ReferenceType")
+		}
+		if head == token.NoPos {
+			return true
+		}
+		// in the body: val and fromType are both reassigned from a load
+		setsVal, setsFrom := false, false
+		ast.Inspect(ifs.Body, func(y ast.Node) bool {
+			as, ok := y.(*ast.AssignStmt)
+			if !ok {
+				return true
+			}
+			isLoad := false
+			for _, rhs := range as.Rhs {
+				if cl, ok := ast.Unparen(rhs).(*ast.CallExpr); ok {
+					if f := callee(info, cl); f != nil && (f.Name() == "derefValueIfNeeded" || f.Name() == "emitLoad") {
+						isLoad = true
+					}
+				}
+			}
+			for _, l := range as.Lhs {
+				if objOf(info, l) == val && isLoad {
+					setsVal = true
+				}
+				if objOf(info, l) == from {
+					setsFrom = true
+				}
+			}
+			return true
+		})
+		if setsVal && setsFrom {
+			loaded, refPos = true, head
+		}
+		return true
+	})
+	r.Check(loaded && primPos != token.NoPos && refPos < primPos, rule, fn.Name(), "a reference-typed source is loaded before the primitive-type test", c.pos(fn.Decl.Pos()),
+		"the helper that call sites give the un-dereferenced type of the source expression treats a reference as 'not a primitive' and returns the pointer unchanged: `let r: &i32 = &a; let p: P = { .A = r, .B = r };` stored the address in the i64 field and its bit pattern in the f64 field, `o ?? r` and `return r` into `str ! i64` did the same")
+}
+
+// ---- C09.R10: compile-time evaluation resolves an identifier by its symbol, not by its name ---------------------
+
+func init() {
+	lateInits = append(lateInits, func() {
+		props["C09"].Quick = append(props["C09"].Quick, c09R10)
+		props["C04"].Quick = append(props["C04"].Quick, c09R10)
+		props["C09"].Explanation += " (R10) the constant evaluator looks an identifier's name up in a scope only when the identifier carries no resolved symbol: a resolved local without a compile-time value is not replaced by whatever the name means in the scope the evaluator runs in (a module-level constant of the same name)."
+	})
+}
+
+func c09R10(c *Ctx, r *Report) {
+	const rule = "C09.R10"
+	const pkgCE = "internal/hir/consteval"
+	r.Describe(rule, "hir/consteval: in a function with a *hir.Ident parameter, every scope look-up by that identifier's Name (Lookup/GetSymbol/LookupLocal…) is preceded in an enclosing block by `if … ident.Symbol != nil … { return … }` or stands inside `if ident.Symbol == nil`")
+	n := 0
+	for _, fn := range c.AllFns(pkgCE) {
+		if fn.Decl.Body == nil {
+			continue
+		}
+		info := fn.Info()
+		sig := fn.Obj.Type().(*types.Signature)
+		var ident *types.Var
+		for i := 0; i < sig.Params().Len(); i++ {
+			if nt := namedOf(sig.Params().At(i).Type()); nt != nil && nt.Obj().Name() == "Ident" && strings.HasSuffix(nt.Obj().Pkg().Path(), "internal/hir") {
+				ident = sig.Params().At(i)
+			}
+		}
+		if ident == nil {
+			continue
+		}
+		isField := func(e ast.Expr, name string) bool {
+			sel, ok := ast.Unparen(e).(*ast.SelectorExpr)
+			return ok && sel.Sel.Name == name && objOf(info, sel.X) == ident
+		}
+		walkWithStack(fn.Decl.Body, func(x ast.Node, stack []ast.Node) bool {
+			cl, ok := x.(*ast.CallExpr)
+			if !ok {
+				return true
+			}
+			sel, ok := cl.Fun.(*ast.SelectorExpr)
+			if !ok || !(strings.HasPrefix(sel.Sel.Name, "Lookup") || strings.HasPrefix(sel.Sel.Name, "GetSymbol")) {
+				return true
+			}
+			byName := false
+			for _, a := range cl.Args {
+				if isField(a, "Name") {
+					byName = true
+				}
+			}
+			if !byName {
+				return true
+			}
+			n++
+			guarded := false
+			for i, a := range stack {
+				var next ast.Node = cl
+				if i+1 < len(stack) {
+					next = stack[i+1]
+				}
+				switch s := a.(type) {
+				case *ast.IfStmt:
+					for _, cj := range conjuncts(s.Cond) {
+						if b, ok := isBinOp(cj, token.EQL); ok && isField(b.X, "Symbol") && exprStr(b.Y) == "nil" && containsNode(s.Body, next) {
+							guarded = true
+						}
+					}
+				case *ast.BlockStmt:
+					for _, st := range s.List {
+						if st.End() > cl.Pos() {
+							break
+						}
+						if ifs, ok := st.(*ast.IfStmt); ok && thenTerminates(ifs) {
+							for _, dj := range disjuncts(ifs.Cond) {
+								if b, ok := isBinOp(dj, token.NEQ); ok && isField(b.X, "Symbol") && exprStr(b.Y) == "nil" {
+									guarded = true
+								}
+							}
+						}
+					}
+				}
+			}
+			r.Check(guarded, rule, fn.Name(), "look-up of "+ident.Name()+".Name through "+exprStr(cl.Fun), c.pos(cl.Pos()),
+				"an identifier that is resolved to a symbol without a compile-time value is looked up again by name in the scope the evaluator runs in: `const k: i32 = 2; … let k := zero(); io::Println(a[k]);` read a[2] (the module-level constant) where the local k is 0, and `match m { k => … }` compared with 2")
+			return true
+		})
+	}
+	r.Floor(rule, n, 1, "by-name look-ups in the constant evaluator")
+}
